@@ -61,7 +61,7 @@ struct Peer {
 	bool lazy = false; int F = 100;
 	std::deque<Bytes> up_queue; Bytes up_z; size_t up_off = 0; int up_frag = 0; bool up_active = false;
 	int up_next_to = -1; size_t up_force_first = 0;
-	int merge_stage = 0; Bytes merge_next; std::vector<Bytes> up_abandoned;   // C01 merge game (see do_up)
+	int merge_stage = 0; bool merge_lose_first = false; Bytes merge_next; std::vector<Bytes> up_abandoned;   // C01 merge game (see do_up)
 	Bytes up_cur_pkt; int up_cur_to = -1;   // peer index the current upstream packet is addressed to (client-to-client), -1 the server
 	std::vector<Bytes> up_completed;
 	size_t absorbed = 0;
@@ -93,7 +93,7 @@ struct Run {
 	// statistics for the non-trivial rules
 	int n_redeliver = 0, n_red_cache = 0, n_red_qmem = 0, n_red_pending = 0, n_red_lastfrag = 0, n_red_case = 0, n_red_otheraddr = 0;
 	int n_multi3 = 0, n_nreq_ok = 0, n_badfrag = 0, n_dup_twice = 0, n_realsoon = 0, n_tun_via_held = 0, n_long = 0;
-	int n_cache_same = 0, n_trunc = 0, n_lost_answers = 0, n_giveup = 0, n_raw = 0, n_recycled = 0, n_recycled_same_name = 0, n_recycled_data_before_n = 0, n_c2c = 0, n_red_altdomain = 0, n_qr = 0, n_hsreq = 0, n_wrap = 0, n_merge = 0, n_glue = 0, n_infra = 0;
+	int n_cache_same = 0, n_trunc = 0, n_lost_answers = 0, n_giveup = 0, n_raw = 0, n_recycled = 0, n_recycled_same_name = 0, n_recycled_data_before_n = 0, n_c2c = 0, n_red_altdomain = 0, n_qr = 0, n_hsreq = 0, n_wrap = 0, n_merge = 0, n_glue = 0, n_infra = 0, n_merge_lost_first = 0, n_excluded_k4 = 0;
 	uint64_t n_data_emits = 0;
 	std::map<int, std::pair<int, Bytes>> c2c_on_delivery;   // last-fragment query record -> (receiving peer, packet): registered in the receiver's stream when the server reads that query
 	uint64_t t_last_sent = 0;    // when the harness last handed a query to the network
@@ -497,6 +497,12 @@ struct Engine {
 			}
 			if (!wrap && P.wrap_games && p.merge_stage == 2) {
 				p.up_cur_pkt = p.merge_next; p.up_z = refproto::zcompress(p.up_cur_pkt); p.up_force_first = up_chunk_cap(p); p.up_cur_to = -1; p.merge_stage = 0; wrap = true; R.n_merge++;
+				// Is the new packet's first fragment lost as well (the sender goes on when ANY answer acknowledges (seq, 0), e.g. the answer to
+				// an earlier ping)?  Then nothing tells the server that the fragment it holds belongs to another packet: known finding K4,
+				// excluded by construction unless the driver replays the pinned case.
+				p.merge_lose_first = t.chance(1, 2);
+				if (p.merge_lose_first && !getenv("VERIF_KNOWN")) { p.merge_lose_first = false; R.n_excluded_k4++; }
+				if (p.merge_lose_first) R.n_merge_lost_first++;
 				sim::W.run_for(28000000);
 				note(fmt("peer%d: seven packets lost entirely; next packet (Adler-equivalent partner of the abandoned one, %zu bytes) re-uses sequence number %d", peer_index(p), p.up_cur_pkt.size(), p.sc.up_seq));
 			} else if (!wrap && P.wrap_games && p.merge_stage == 0 && p.up_cur_to < 0 && t.chance(1, 4)) {
@@ -526,6 +532,13 @@ struct Engine {
 		if (n > cap) { /* cannot fit: abandon this packet */ p.up_active = false; return; }
 		Bytes chunk(p.up_z.begin() + p.up_off, p.up_z.begin() + p.up_off + n);
 		bool last = p.up_off + n >= p.up_z.size();
+		if (p.merge_lose_first && p.up_off == 0) {   // lost on the way; an acknowledgement for (seq, 0) arrives all the same (see above)
+			p.merge_lose_first = false; p.sc.data_cmc = (p.sc.data_cmc + 1) % 36;
+			note(fmt("peer%d data up=%d/0 %zuB is lost on the way", peer_index(p), p.sc.up_seq, n));
+			p.sc.send_ping(); sim::W.run_for(30000);
+			p.up_off += n; p.up_frag++;
+			return;
+		}
 		std::string name = refproto::name_data(p.sc.userid, p.sc.up_seq, p.up_frag, p.sc.dn_seq, p.sc.dn_frag, last, cm[p.sc.data_cmc], p.sc.up_codec, chunk, p.sc.domain);
 		p.sc.data_cmc = (p.sc.data_cmc + 1) % 36;
 		uint16_t id = p.sc.send_name(name);
